@@ -1031,6 +1031,8 @@ class Session:
         k = core["k"]
         if k == "static":
             return core, None
+        if k == "mix":
+            return static_root(self.node), None
         if k in ("switch", "or_else"):
             brs = core["branches"] if k == "switch" else [core["a"], core["b"]]
             rargs = self.ref_args(src.args)
